@@ -290,6 +290,8 @@ def solved(ctx, thorough, terms_path):
     ctx.traces += judged
     ctx.exhaustive['binding: sampled solve configurations'] = False
     ctx.stage('replay.PrismSolve', configurations_tried=done, successful_solves_judged=judged, methods=methods)
+    if judged < 5:      # vacuity guard
+        raise MachineryError('only %d solves reported success: the solved-object statements were not exercised' % judged)
     # direction B
     os.environ['VERIF_CLOSURE_TERMS'] = terms_path
     ev1, i1 = tracecheck.record_pytest(ctx, ['PRISM_test.py', 'CalcPRISM_test.py', 'System_test.py'], 'suite_solve')
